@@ -13,6 +13,9 @@ FlattenConstructs == {"flatten_field", "flatten_vfield", "flatten_field_sas", "f
 \* no target type expresses - unsupported like any other multi-field tuple
 ItemConstructs == FlattenConstructs \cup {"multi_tuple_struct", "multi_tuple_variant", "multi_tuple_struct_one_kept", "multi_tuple_variant_one_kept",
                    "multi_tuple_struct_one_kept_ts", "untagged_data_enum",
+                   \* a struct variant carries data (serde writes {"Bad":{..}}, not "Bad") whatever is left of its fields: with
+                   \* fields, with every field skipped, written with no field at all
+                   "untagged_enum_struct_variant", "untagged_enum_struct_variant_fields_skipped", "untagged_enum_empty_struct_variant",
                    "tag_without_content", "content_without_tag", "tag_on_unit_enum", "content_on_unit_enum",
                    "const_string", "const_float", "const_expr", "const_bool", "const_path",
                    \* further initialisers that are not integer literals: a cast (which may change the value), bitwise not, a method
@@ -27,7 +30,8 @@ Unsupported == TypeConstructs \cup ItemConstructs
 
 \* where a skip marker can shelter the construct
 Skippable(c) == \/ c.construct \in TypeConstructs /\ c.carrier \in {"field", "vfield", "payload", "sas_field"}
-                \/ c.construct \in {"multi_tuple_variant", "multi_tuple_variant_one_kept"} \cup FlattenConstructs \cup SkipMakesUnsupported
+                \/ c.construct \in {"multi_tuple_variant", "multi_tuple_variant_one_kept", "untagged_enum_struct_variant",
+                                    "untagged_enum_struct_variant_fields_skipped", "untagged_enum_empty_struct_variant"} \cup FlattenConstructs \cup SkipMakesUnsupported
 Sheltered(c) == c.skip # "none" /\ Skippable(c) /\ c.construct \notin SkipMakesUnsupported
 MustReject(c) == IF c.construct \in SkipMakesUnsupported THEN c.skip # "none" ELSE c.construct \in Unsupported /\ ~Sheltered(c)
 
